@@ -111,7 +111,11 @@ fn hist_tols(r: &Req, f: &RollFn) -> Vec<f64> {
         let mut t = 1e-9 + 256.0 * f64::EPSILON * kappa.powf(p / 2.0);
         if h > 0.0 && f.pow >= 1 {
             if sd <= 0.0 && f.pow >= 2 {
-                t = f64::INFINITY;
+                // a constant window: the EPS floor of the moment functions decides between 0 and
+                // noise. It decides deterministically (and the output is the model's) when the
+                // worst-case residue the history leaves in the second-power sum is below the floor
+                let resid = f64::EPSILON * 2.0 * n_hist * (w as f64 + 1.0) * h.max(scale).powi(2);
+                t = if f.family == "feat" && resid <= 0.8e-14 { 1e-9 } else { f64::INFINITY };
             } else {
                 let denom = if f.pow >= 2 { sd } else { 1.0 };
                 t += 64.0 * f64::EPSILON * n_hist * (h.max(scale) / denom).powf(p);
@@ -231,10 +235,30 @@ pub fn generate(tier: &str, rng: &mut Rng) -> (Vec<String>, bool) {
             }
             out.push(l);
         }
+        // a constant tail behind a short history of decimal fractions (not representable, so the
+        // running sums keep a residue): the variance floor must still give the constant-window result
+        if f.family == "feat" && f.pow >= 2 {
+            for i in 0..(if thorough { 400 } else { 40 }) {
+                let w = 2 + rng.below(3);
+                let tl = w + rng.below(4);
+                let hl = 1 + rng.below(8);
+                let c = ["0", "3/10", "-1/5", "1/2"][i % 4];
+                let frac = |rng: &mut Rng| -> String {
+                    let k = rng.range(-5, 5);
+                    if k == 0 { "0".into() } else if k % 5 == 0 { format!("{}/2", k / 5) } else if k % 2 == 0 { format!("{}/5", k / 2) } else { format!("{}/10", k) }
+                };
+                let xs: Vec<String> = (0..tl).map(|_| c.to_string()).collect();
+                let ha: Vec<String> = (0..hl).map(|_| frac(rng)).collect();
+                let hb: Vec<String> = (0..hl).map(|_| frac(rng)).collect();
+                let mp = [w, w - 1, 1][i % 3];
+                let b = if i % 3 == 0 { " b=deque1" } else { "" };
+                out.push(format!("C06hist f={} w={} mp={} t=f64 o=f64{} tol=0 xs={} ha={} hb={}{}", f.name, w, mp, b, join(&xs), join(&ha), join(&hb), f.extra));
+            }
+        }
     }
     (out, false)
 }
 
 pub fn rule(tier: &str) -> String {
-    format!("relational runs on the real code for all {} catalogued rolling entry points (on Vec, VecDeque with a wrapped ring buffer, Arc<VecDeque> and a strided ndarray view in rotation): (a) prefix runs — for random series every cut 0..=len, prefix result compared token-for-token (full-precision floats, i.e. bit-for-bit) with the prefix of the whole result; (b) history replacement — two random pre-window histories of equal length (up to {}) in front of the same tail, outputs from position |h|+w-1 on compared with each other (exactly for min/max/arg/rank) and with the Lean model. non-trivial = distinct request with a non-null output.", ROLL.len(), if tier == "thorough" { "200, magnitudes up to 2^20 with a scaled tolerance" } else { "40, |v| <= 64 so power sums are exact" })
+    format!("relational runs on the real code for all {} catalogued rolling entry points (on Vec, VecDeque with a wrapped ring buffer, Arc<VecDeque> and a strided ndarray view in rotation): (a) prefix runs — for random series every cut 0..=len, prefix result compared token-for-token (full-precision floats, i.e. bit-for-bit) with the prefix of the whole result; (b) history replacement — two random pre-window histories of equal length (up to {}) in front of the same tail, outputs from position |h|+w-1 on compared with each other (exactly for min/max/arg/rank) and with the Lean model; (c) for the 8 moment functions with a variance floor (std, var, skew, kurt, both forms): a constant tail behind two histories of decimal fractions |v| <= 1/2 (length <= 8, so the residue they leave in the running sums is provably below the floor) — both runs must give the model's constant-window result. non-trivial = distinct request with a non-null output.", ROLL.len(), if tier == "thorough" { "200, magnitudes up to 2^20 with a scaled tolerance" } else { "40, |v| <= 64 so power sums are exact" })
 }
